@@ -325,7 +325,15 @@ fn check_c18(tier: Tier) {
         let (e2, o2) = vh::c18::run_config_once(&cfg, &sched);
         let s2 = e2.schedule();
         drop(e2);
-        if s1 != s2 || o1 != o2 {
+        // (a failure that by its nature depends on where the allocator put a buffer - a hash that
+        // differs from the one the same contents had earlier - is a verdict about the code under
+        // test, not a scheduler that lost control: it is left out of this comparison)
+        let strip = |o: &vh::c18::Obs18| {
+            let mut o = o.clone();
+            o.failures.retain(|f| !f.contains("hashes differently from an earlier handle"));
+            o
+        };
+        if s1 != s2 || strip(&o1) != strip(&o2) {
             evidence::machinery_failure("C18: the same schedule prefix gave two different executions");
         }
     }
